@@ -7,6 +7,7 @@ WT="$(mktemp -d /tmp/vf-mut-XXXXXX)"; rmdir "$WT"
 git -C /repo worktree add -q --detach "$WT" HEAD || exit 2
 cleanup() { git -C /repo worktree remove --force "$WT" >/dev/null 2>&1; rm -rf "$WT"; }
 trap cleanup EXIT INT TERM
+case "$M" in revert:*) ;; /*) ;; *) M="$(pwd)/$M" ;; esac
 case "$M" in
   revert:*) git -C "$WT" revert --no-commit "${M#revert:}" >/dev/null 2>&1 || { echo "cannot revert $M"; exit 2; } ;;
   *) git -C "$WT" apply "$M" || { echo "cannot apply $M"; exit 2; } ;;
